@@ -39,17 +39,27 @@ def _zeroing(fn):
     return f
 
 
+def _infing(fn):
+    """some pairs are infinitely far apart (a log-ratio of zero counts, a distance with a zero variance): every eleventh
+    (r + 3a + 3b); +inf is a value like any other"""
+    def f(r, a, b):
+        return float('inf') if (r + 3 * min(a, b) + 3 * max(a, b)) % 11 == 0 else fn(r, a, b)
+    return f
+
+
 _VFN = {}
 
 
 def value_fn_of(spec):
     if spec.get('wide'):
         return enc_wide
-    key = (spec.get('dtype') == 'int64' or bool(spec.get('enc2')), bool(spec.get('neg')), bool(spec.get('zeros')))
+    key = (spec.get('dtype') == 'int64' or bool(spec.get('enc2')), bool(spec.get('neg')), bool(spec.get('zeros')),
+           bool(spec.get('infs')) and not (spec.get('dtype') == 'int64' or bool(spec.get('enc2'))))
     if key not in _VFN:
         base = enc2 if key[0] else enc
         base = _negating(base) if key[1] else base
-        _VFN[key] = _zeroing(base) if key[2] else base
+        base = _zeroing(base) if key[2] else base
+        _VFN[key] = _infing(base) if key[3] else base
     return _VFN[key]
 
 
@@ -204,6 +214,8 @@ def gen_rdms_spec(rng, n_rdm=(1, 6), n_cond=(3, 9), nan_prob=0.25, groupings=Tru
         spec['neg'] = True
     if dtypes and rng.chance(0.15):
         spec['zeros'] = True
+    if dtypes and rng.chance(0.1):
+        spec['infs'] = True
     if dtypes and rng.chance(0.12) and nr > 1:
         # a user-supplied 'index' for the RDMs (session number per subject ...): values repeat and are not positional
         spec['rdm_desc']['index'] = {'values': [i % max(1, nr // 2) for i in range(nr)], 'container': rng.pick(['list', 'array'])}
